@@ -92,6 +92,56 @@ def l2_tree_invariances(run, rng, quick):
     return done
 
 
+def l2_add_structure(run, rng, quick):
+    """exact structural replay of the model `RenoVerif.TreeVal.addT / addRoot` on the REAL `TTNS.add`: integer-valued random
+    trees; every node tensor of the result must be the block arrangement of the model (first block = first summand, second
+    block = second summand, mixed blocks zero, the root's parent bond not doubled, single-node trees: plain sum)."""
+    import lib_tree as lt
+    done = 0
+    for _ in range(10 if quick else 100):
+        qn_mode = str(rng.choice(["none", "none", "u1"]))
+        descs = lt.random_basis_descs(rng, int(rng.integers(1, 6)), qn_mode=qn_mode)
+        descs2, spec = lt.random_tree_spec(rng, descs)
+        basis_list = lt.make_basis_list(descs2)
+        pair = []
+        for _k in range(2):
+            tree, nodes = lt.build_basis_tree(spec, basis_list)
+            st = lt.random_ttns_tensors(rng, spec, descs2, max_bond=3, cplx=False)
+            if st is None:
+                break
+            tens = [np.round(3 * np.asarray(t)) for t in st["tensors"]]      # small integers: every comparison is exact
+            pair.append(lt.build_ttns(tree, spec, tens, st["qns"]))
+        if len(pair) < 2:
+            continue
+        a, b = pair
+        try:
+            c = a.add(b)
+        except Exception as e:  # noqa  (different sectors of the two random states etc.)
+            run.count("add-structure-raised:" + type(e).__name__)
+            continue
+        done += 1
+        run.count(f"add-structure:nodes={len(a.node_list)}:qn={qn_mode}")
+        for k, (na, nb, nc) in enumerate(zip(a.node_list, b.node_list, c.node_list)):
+            ta, tb, tc = np.asarray(na.tensor), np.asarray(nb.tensor), np.asarray(nc.tensor)
+            nch = len(na.children)
+            is_root = na is a.root
+            shape, s1, s2 = [], [], []
+            for ax, (x, y) in enumerate(zip(ta.shape, tb.shape)):
+                virtual = ax < nch or (ax == ta.ndim - 1 and not is_root)
+                shape.append(x + y if virtual else x)
+                s1.append(slice(0, x))
+                s2.append(slice(x, x + y) if virtual else slice(0, x))
+            exp = np.zeros(shape)
+            exp[tuple(s1)] += ta
+            exp[tuple(s2)] += tb
+            if tc.shape != exp.shape or not np.array_equal(tc, exp):
+                run.violation("add:tree:node-tensor-not-the-block-sum",
+                              dict(spec=spec, node=k, is_root=bool(is_root), children=nch, shape_result=list(tc.shape), shape_expected=list(exp.shape),
+                                   what="TTNS.add: a node tensor of the result is not the direct-sum block arrangement of RenoVerif.TreeVal.addT/addRoot"))
+                break
+    return done
+
+
 def l2_tree_gauge_contract(run, rng, quick):
     """hypotheses of `amp_bond_gauge` checked on every REAL gauge move of the tree code (push_cano_to_parent / _to_child
     during canonicalise and random walks of the centre): only the two tensors at the ends of ONE bond change, their
@@ -177,7 +227,7 @@ def l2_tree_gauge_contract(run, rng, quick):
 
 if __name__ == "__main__":
     common.main_wrapper(lambda: generic_check.run_check(
-        "C11", "other", ["RenoVerif/Props/C11.lean"], [l2_tree_invariances, l2_tree_gauge_contract],
+        "C11", "other", ["RenoVerif/Props/C11.lean", "RenoVerif/Props/C11Tree.lean", "RenoVerif/Props/C06Tree.lean"], [l2_tree_invariances, l2_add_structure, l2_tree_gauge_contract],
         ["add, apply, canonicalise/compress, expectation, reduced density matrices and entropies of tree states are decided by the dense oracle only",
          "the tn package imports only with the print_tree shim"],
         "random trees (2-5 basis sets + dummies, all shapes) x random QN-free tensors; state-sum vs TTNS dense walk, scale, child permutation",
